@@ -56,7 +56,7 @@ theorem applyEdit_update {m m' : MDL} {e : Edit} (h : Mdl.applyEdit m e = .ok m'
 /-- after a non-empty history that started from a model whose used LODs own disjoint mesh ranges:
 consistent headers, and mesh starts = first sub-mesh offsets -/
 theorem history_last (es : List Edit) (hne : es ≠ []) (m m' : MDL)
-    (hd : RangesDisjoint m.modelData.lods m.fileHeader.lodCount.toNat)
+    (hd : RangesDisjoint m.modelData.lods m.lods.length)
     (h : es.foldlM Mdl.applyEdit m = .ok m') : HeaderOK m' ∧ StartsFromSubmesh m' := by
   obtain ⟨init, last, rfl⟩ : ∃ init last, es = init ++ [last] :=
     ⟨es.dropLast, es.getLast hne, (List.dropLast_concat_getLast hne).symm⟩
@@ -68,9 +68,9 @@ theorem history_last (es : List Edit) (hne : es ≠ []) (m m' : MDL)
   subst e
   have hfr := history_frame init m mp hmp
   have hdp := hfr.rangesDisjoint hd
-  obtain ⟨m1, hu, hl, hf, _⟩ := applyEdit_update hm2
+  obtain ⟨m1, hu, hl, _, hpl⟩ := applyEdit_update hm2
   refine ⟨updateHeaders_ok m1 m2 hu, updateHeaders_starts hu ?_⟩
-  rw [hl, hf]
+  rw [hl, hpl]
   exact hdp
 
 /-! ### the header-array slots of the LODs that were not parsed are never written -/
